@@ -1369,6 +1369,19 @@ impl Error {
     /// - The live events adapter when the underlying parser fails.
     #[cold]
     #[inline(never)]
+    /// True if this error is a syntax error reported by the YAML scanner/parser (as opposed to
+    /// a budget breach, an I/O error or a deserialization error). Only such errors may be
+    /// treated as ignorable "trailing garbage" after a document end marker.
+    pub(crate) fn is_scan_error(&self) -> bool {
+        matches!(
+            self.without_snippet(),
+            Error::ExternalMessage {
+                source: ExternalMessageSource::SaphyrParser,
+                ..
+            }
+        )
+    }
+
     pub(crate) fn from_scan_error(err: ScanError) -> Self {
         use crate::location::SpanIndex;
         let mark = err.marker();
